@@ -215,3 +215,6 @@ def run(facts, rep, tier):
              "notification with it).")
     from . import c12 as _c12
     _c12.rule_r5(facts, rep, "C11-R5")
+    rep.rule("C11-R6", "= C04-R3: applying an edit replaces every per-note cache (front matter, line table, title) - insert on Some, remove on None - so that the state after the "
+             "last notification is the state of the last text sent, not a mix with earlier ones.")
+    _c04.rule_r3(facts, rep, "C11-R6")
